@@ -16,7 +16,7 @@ func init() { Registry["C05"] = c05 }
 
 func c05(e *Env) {
 	r := e.R
-	r.Explanation = "Structural necessary conditions of 'Run returns exactly when all work is done', decided on all paths: (R1) Process.Run's scheduling loop can be left only when the feed channel variable is nil AND the started-task queue is empty, and the variable becomes nil only on the closed (comma-ok false) branch; (R2) receiving a new task and waiting for the oldest task's Done are arms of one blocking select (issue #81 shape); (R3) every library process type that owns out-ports closes them on every normal return of Run and never sends after closing (typestate); the port-closing helpers cover every port; (R4) in Task.Execute a Done signal that can follow the command is preceded on all paths by the completed finalisation (all declared renames, removal of the temp dir) and the slot release, and Done is closed only by the deferred close; (R5) Sink.Run: all drainers are started before the first wait, each drains its channel to closure and then signals exactly once, waits and drainers are guarded by the same conditions, and the signal channel is closed after the waits; (R6) reconnectDeadEndConnections wires every out-port and every parameter out-port that is left without a consumer to the sink, and examines every connection (loops not left early); (R7) pairing: once the temp dir is created, its removal is inevitable on normally returning paths, and the FIFO of every streaming output is removed after the task is done; (R8) shared with C04: every process is started exactly once, the driver only synchronously."
+	r.Explanation = "Structural necessary conditions of 'Run returns exactly when all work is done', decided on all paths: (R1) Process.Run's scheduling loop can be left only when the feed channel variable is nil AND the started-task queue is empty, and the variable becomes nil only on the closed (comma-ok false) branch; (R2) receiving a new task and waiting for the oldest task's Done are arms of one blocking select (issue #81 shape); (R3) every library process type that owns out-ports closes them on every normal return of Run and never sends after closing (typestate); the port-closing helpers cover every port; (R4) in Task.Execute a Done signal that can follow the command is preceded on all paths by the completed finalisation (all declared renames, removal of the temp dir) and the slot release, and Done is closed only by the deferred close; (R5) Sink.Run: all drainers are started before the first wait, each drains its channel to closure and then signals exactly once, waits and drainers are guarded by the same conditions, and the signal channel is closed after the waits; (R6) reconnectDeadEndConnections wires every out-port and every parameter out-port that is left without a consumer to the sink, and examines every connection (loops not left early); (R7) pairing: once the temp dir is created, its removal is inevitable on normally returning paths, and the FIFO of every streaming output is removed after the task is done; (R8) shared with C04: every process is started exactly once, the driver only synchronously; (R9) shared with C07: the slot mutex spans the whole token loop of a multi-core acquisition, so two tasks can never each hold a part of their tokens and wait for the rest forever."
 	r.NotDecided = "deadlock-freedom and termination of the process/channel network as a whole for arbitrary graphs, buffer sizes and slot counts (a liveness property of a dynamically wired network; no sound static argument in reach). The rules are necessary conditions only."
 	a := e.anchors()
 	if !a.ok() {
@@ -29,6 +29,7 @@ func c05(e *Env) {
 	e.c05Reconnect("R6")
 	e.c05Pairing()
 	e.spawnRules("R8", "R8")
+	e.slotMutexSpansLoop("R9")
 	// forwarding loops of Process.Run (also part of C04's delivery obligations)
 	e.forwardAllOutputs("R3")
 }
@@ -542,12 +543,16 @@ func (e *Env) c05Sink(rule string) {
 	}
 	sort.Strings(gg)
 	sort.Strings(gw)
+	counted := ""
 	if strings.Join(gg, ";") != strings.Join(gw, ";") {
+		counted = e.sinkCountedWaits(gos, waits)
+	}
+	if strings.Join(gg, ";") != strings.Join(gw, ";") && counted == "" {
 		okAll = false
 		ob.Fail(core.FuncName(run), "the waits are not guarded by the same conditions as the drainers: drainers under {"+strings.Join(gg, "; ")+"}, waits under {"+strings.Join(gw, "; ")+"} (a missing wait lets Run return early, an extra one blocks forever)")
 	}
 	if okAll {
-		ob.OK(core.FuncName(run), fmt.Sprintf("%d drainers then %d waits, guards: %s", len(gos), len(waits), strings.Join(gg, "; ")))
+		ob.OK(core.FuncName(run), fmt.Sprintf("%d drainers then %d waits, guards: %s %s", len(gos), len(waits), strings.Join(gg, "; "), counted))
 	}
 	// drainer bodies
 	for _, n := range gos {
@@ -601,6 +606,72 @@ func (e *Env) c05Sink(rule string) {
 			obd.OK(gd.Where(s), "range to closure, then one signal")
 		}
 	}
+}
+
+// sinkCountedWaits recognises the "pending counter" form of drain-all-then-wait: a counter that starts at 0 and
+// is incremented by exactly 1 in the basic block of every `go` statement (so: once per started drainer, under
+// the same conditions), and a single wait inside a counted loop that runs exactly <counter> times. It returns
+// a description, or "" when the code is not of that form.
+func (e *Env) sinkCountedWaits(gos, waits []*core.Node) string {
+	if len(waits) != 1 {
+		return ""
+	}
+	bound, why := e.P.CountedLoopBound(waits[0].Instr)
+	if bound == nil {
+		_ = why
+		return ""
+	}
+	var incs []*ssa.BinOp
+	ok := true
+	seen := map[ssa.Value]bool{}
+	var walk func(v ssa.Value)
+	walk = func(v ssa.Value) {
+		if seen[v] {
+			return
+		}
+		seen[v] = true
+		switch x := v.(type) {
+		case *ssa.Phi:
+			for _, ed := range x.Edges {
+				walk(ed)
+			}
+		case *ssa.Const:
+			if x.Value == nil || x.Int64() != 0 {
+				ok = false
+			}
+		case *ssa.BinOp:
+			k, isK := x.Y.(*ssa.Const)
+			if x.Op != token.ADD || !isK || k.Value == nil || k.Int64() != 1 {
+				ok = false
+				return
+			}
+			incs = append(incs, x)
+			walk(x.X)
+		default:
+			ok = false
+		}
+	}
+	walk(bound)
+	if !ok || len(incs) != len(gos) {
+		return ""
+	}
+	used := map[*ssa.BinOp]bool{}
+	for _, gn := range gos {
+		if core.InnermostLoop(gn.Instr) != nil {
+			return ""
+		}
+		hit := false
+		for _, inc := range incs {
+			if inc.Block() == gn.Instr.Block() && !used[inc] {
+				used[inc], hit = true, true
+				break
+			}
+		}
+		if !hit {
+			return ""
+		}
+	}
+	return fmt.Sprintf("(counted: one increment per started drainer, one wait per count)")
 }
 
 // guardsOf renders the branch conditions (with polarity) that dominate instruction in, innermost last.
